@@ -5,7 +5,8 @@ CONSTANTS
   NR = 2
   Modes = {"xsec", "ktables"}
   RpRoutes = {"param", "attr"}
-  Entries = {"model", "partial"}
+  Entries = {"model", "partial", "contrib", "full_contrib"}
+  PhysSet = {"rp", "ts", "dist", "tp", "mix"}
   Record = FALSE
   MaxSets = 0
   SVariant = "code"
